@@ -132,6 +132,15 @@ def lock_pairing(chk):
         chk.ok(rule, name, "non-blocking acquire of one shared lock; released exactly once on every exit (return, Exception, BaseException, KeyboardInterrupt) of the acquired path; RuntimeError and untouched lock otherwise; accept is decorated", node=fi.node, input="2 x 4 outcomes, every other call may throw")
 
 
+def own_helpers(cls, entry):
+    """inline small synchronous own-class helpers (extracted blocks), never the public lifecycle methods"""
+
+    def flt(f, ct):
+        return f.cls is cls and not f.is_async and f is not entry and f.name not in ("accept", "shutdown", "adopt", "execute", "_adopt_services")
+
+    return flt
+
+
 def sweep(chk):
     prog = chk.program
     cls = prog.cls(SERVICE_RUNNER)
@@ -170,7 +179,7 @@ def sweep(chk):
                 return [("value", NONE)] + inj
             return None
 
-        outs = Interp(prog, fi, call_hook=hook, decide=decide, pessimistic=pessimistic, unroll=2).run()
+        outs = Interp(prog, fi, call_hook=hook, decide=decide, pessimistic=pessimistic, unroll=2, inline=own_helpers(cls, fi)).run()
         chk.count(len(outs))
         for o in outs:
             evs = o.path.events
@@ -197,7 +206,7 @@ def sweep(chk):
     rule = "O12.3"
     ok = True
     sd = prog.method(SERVICE_RUNNER, "shutdown")
-    outs = Interp(prog, sd).run()
+    outs = Interp(prog, sd, inline=own_helpers(cls, sd)).run()
     chk.count(len(outs))
     for o in outs:
         evs = o.path.events
@@ -300,6 +309,16 @@ def sweep(chk):
                                 chk.bad(rule, f.qual, "accept resets the shutdown request flag after it has started the sweep / the runners: a request made in between is lost", node=node, stmt="reset-late")
                                 ok = False
                                 continue
+                            callers = {g.name for gs in cls.methods.values() for g in gs for c_ in ast.walk(g.node) if isinstance(c_, ast.Call) and util.dotted(c_.func) == "self." + f.name}
+                            if callers and ((callers <= {"__init__", "accept"} and val is False) or (callers <= {"shutdown"} and val is True)):
+                                if "accept" in callers:
+                                    acc_ = prog.method(SERVICE_RUNNER, "accept")
+                                    first_call = min((s_.lineno for s_ in acc_.node.body if any(isinstance(x, ast.Call) and isinstance(x.func, ast.Attribute) and x.func.attr in ("adopt", "run") for x in ast.walk(s_))), default=10**9)
+                                    mine = min((c_.lineno for c_ in ast.walk(acc_.node) if isinstance(c_, ast.Call) and util.dotted(c_.func) == "self." + f.name), default=10**9)
+                                    if mine < first_call:
+                                        continue
+                                else:
+                                    continue
                             chk.bad(
                                 rule,
                                 f.qual,
